@@ -20,6 +20,7 @@ package fs
 //@   modifies fresh
 //@   ensures result1 == nil && oid != EmptyObjectSHA256 ==> result0 == objpath(oid)
 //@   ensures result1 == nil && oid == EmptyObjectSHA256 ==> result0 == devnull
+//@   ensures !err_cleanptr(result1)
 
 // C09: the temporary directory is <storage>/tmp, computed once and cached.
 //@ func (*Filesystem).TempDir
